@@ -288,9 +288,18 @@ pick_len(hx_rng *r, uint32_t blk, uint32_t minlen, uint32_t maxlen, uint32_t has
                 uint32_t b = hashblk ? hashblk : 64;
                 int v = (int) (b * (1 + hx_below(r, 4))) + d[hx_below(r, 8)];
                 n = v < 1 ? 1 : (uint32_t) v;
-        } else if (cls < 95)
+        } else if (cls < 86)
                 n = 1 + hx_below(r, 2048);
-        else
+        else if (cls < 95) {
+                /* whole kernel chunks: the wide kernels work in steps of 8 / 16 / 32 / 48 blocks, and "nothing left for the
+                 * tail" is a path of its own */
+                static const uint32_t chunk[] = { 128, 256, 512, 768, 1024 };
+                static const int dd[] = { 0, 0, 0, 0, -1, 1, 16, -16 };
+                const uint32_t c = chunk[hx_below(r, 5)];
+                const uint32_t k = 1 + hx_below(r, 4096 / c);
+                int v = (int) (c * k) + dd[hx_below(r, 8)];
+                n = v < 1 ? 1 : (uint32_t) v;
+        } else
                 n = 2048 + hx_below(r, 14000);
         if (blk > 1)
                 n = (n + blk - 1) / blk * blk;
